@@ -168,7 +168,10 @@ func init() {
 			}
 			rig.ln.height = uint32(int64(confH) + r.pickI64([]int64{0, 1, 2, 3, 10, 502, 503, 504, 600, -1, -2, -100}))
 			rig.ln.err = r.intn(10) == 0
-			rig.w.AddWaitForConfirmationTx("swap", lndTxid, 0, confH, 504, nil)
+			// the height hint (the taker's starting height) is not the confirmation height: the transaction may have
+			// confirmed long before the taker started to look (and the decision must not depend on the hint)
+			hint := uint32(int64(confH) + r.pickI64([]int64{0, 0, 1, 3, 50, 400, 600, 900, -1, -10}))
+			rig.w.AddWaitForConfirmationTx("swap", lndTxid, 0, hint, 504, nil)
 			rig.cn.mu.Lock()
 			cs := rig.cn.confs[0]
 			rig.cn.mu.Unlock()
@@ -185,7 +188,7 @@ func init() {
 			if len(l) > 0 {
 				got = l[0]
 			}
-			emit(fmt.Sprintf("watch.lndconf %d %s %d %d", onchain.BitcoinCsvSafetyLimit, b01(rig.ln.err), rig.ln.height, confH), got)
+			emit(fmt.Sprintf("watch.lndconf %d %s %d %d %d", onchain.BitcoinCsvSafetyLimit, b01(rig.ln.err), rig.ln.height, confH, hint), got)
 		}
 	}
 }
